@@ -603,6 +603,12 @@ def const_truth(t):
             return a == b
         if isinstance(op, ast.NotEq):
             return a != b
+        num = lambda x: isinstance(x, (int, float)) and not isinstance(x, bool)
+        if num(a) and num(b):
+            if isinstance(op, ast.Lt): return a < b
+            if isinstance(op, ast.LtE): return a <= b
+            if isinstance(op, ast.Gt): return a > b
+            if isinstance(op, ast.GtE): return a >= b
     return None
 
 
